@@ -21,6 +21,7 @@ CASE_TIMEOUT = 900
 REACH_N = 40
 DET_K = 3
 SELFTEST = {'quick': 12, 'thorough': 96}
+REQUIRED_PROBES = ['kind_roundtrip', 'kind_restart', 'kind_params', 'kind_driver', 'resumed_from_checkpoint', 'budget_stopped_early', 'leg1_aborted', 'first_restart_iteration_is_save_step', 'restart_on_different_grid', 'time_7plus_digits', 'save_interval_1', 'explicit_rp', 'driver_without_folder_argument']
 RULE = ('case kinds (swarm-weighted): roundtrip = a Grid on random orderings/shape/dtype written with '
         'writeH5Dataset on process grid P1 (several times, layouts and name conventions) and loaded with '
         'loadFromFile on a different process grid P2, file content checked with serial h5py; restart = '
